@@ -515,3 +515,45 @@ func VerifC03_IngressStepShare_mse()     { c03IngressShare("mse") }
 // C04: the Ingress provider's Finalise really withdraws the canary Ingress (named after the *Ingress*, whatever the
 // Services are called) before it lets the clean-up go on to delete the canary Service (same obligations as C14's).
 func VerifC04_IngressFinaliseWithdrawsCanary() { VerifC14_Finalise() }
+
+// VerifC14_EnsureRoutesRemovesWhatTheScriptRemoved: the update path sends the *difference* between the stored canary
+// annotations and the script's result, removals included, whatever the key looks like.  With the shipped mse script —
+// whose request-header-control-update key does not carry the "canary" prefix of the other managed keys — a step
+// without a header modifier entered after one with a modifier must remove that annotation: done is not reported while
+// the stored Ingress still carries it, and the patch that is sent deletes it.
+func VerifC14_EnsureRoutesRemovesWhatTheScriptRemoved() {
+	const staleKey = "mse.ingress.kubernetes.io/request-header-control-update"
+	r := c14Ctl("mse")
+	c := &symclient.Client{}
+	r.Client = c
+	stable, _ := c14StableIngress(1, 1)
+	c.Objects = append(c.Objects, stable)
+	canary := &netv1.Ingress{ObjectMeta: metav1.ObjectMeta{Name: c14Name + "-canary", Namespace: "ns", Annotations: map[string]string{
+		"nginx.ingress.kubernetes.io/canary": "true"}}}
+	stale := verifrt.Bool("store.hasHeaderControlOfAnEarlierStep")
+	if stale {
+		canary.Annotations[staleKey] = "x-env gray"
+	}
+	storedWeight := verifrt.IntRange("store.weight", 0, 100)
+	canary.Annotations["nginx.ingress.kubernetes.io/canary-weight"] = fmt.Sprintf("%d", storedWeight)
+	c.Objects = append(c.Objects, canary)
+	w := verifrt.IntRange("step.weight", 1, 100)
+	t := fmt.Sprintf("%d%%", w)
+	done, err := r.EnsureRoutes(context.TODO(), &v1beta1.TrafficRoutingStrategy{Traffic: &t})
+	verifrt.Assert(err == nil, "C14.update.noError")
+	if err != nil {
+		return
+	}
+	if stale {
+		verifrt.Cover("stale")
+		verifrt.Assert(!done, "C14.update.notDoneWhileAnEarlierStepsAnnotationIsStored")
+		ps := c.Writes("patch", "Ingress")
+		verifrt.Assert(len(ps) == 1, "C14.update.onePatch")
+		if len(ps) == 1 {
+			v, has := verifrt.JSONGet(ps[0].Body, "metadata", "annotations", staleKey)
+			verifrt.Assert(has && v == "null", "C14.update.patchRemovesWhatTheScriptRemoved")
+		}
+	} else if storedWeight == w {
+		verifrt.Assert(done && len(c.Log) == 0, "C14.update.doneWhenNothingDiffers")
+	}
+}
